@@ -19,7 +19,7 @@ for id in "$@"; do
 import json,re,sys
 m=json.load(open(sys.argv[1]))
 how=m['demo_how_to_run']
-for a,b in re.findall(r'cp _seed/demo/(\S+) (\S+)',how): print('CP',a,b)
+for a,b in re.findall(r'cp _seed/demo/(\S+) ([^\s;]+)',how): print('CP',a,b)
 r=re.search(r"go test ([^;]*?)(?: ;|;|$| \()",how)
 print('TEST',r.group(1).strip().rstrip("'").strip())
 PY
